@@ -17,7 +17,7 @@ _state = {'cur': None, 'installed': False}
 KIND_BY_ACTION = {'_finish_cycle': 'finish', '_pass_part_downstream': 'pass', '_release_resources_if_idle': 'release',
                   '_fail': 'fail', '_check_pending_requests': 'check', '_terminate': 'term',
                   '_start_work_order': 'mstart', '_finish_work_order': 'mfinish',
-                  'restore_functionality': 'restore', '_update_state': 'sched'}
+                  'restore_functionality': 'restore', '_update_state': 'sched', '_periodic_sense': 'psense'}
 
 
 def install():
@@ -106,6 +106,7 @@ class FloorTracer:
         self.nleaf = 0
         self.occs = []
         self.sdlog = []          # shutdown / restored callback log of the current step
+        self.nsense = {}
         self.lost = []           # [dev, pid] reported through shutdown callbacks (callback 1 only)
         self.lines = []
         self.k = 0
@@ -151,6 +152,13 @@ class FloorTracer:
             ent += [0, 0]
         self.occs.append(ent)
 
+    def occ_sense(self, kind, dev, which, data, time, sensor):
+        """on-sense callbacks: the tracer's own (kind 'sense', registered first) and the monitoring system's
+        (kind 'cms'); entry = [kind, dev, number of values, which sensor, first value, time given, 0]"""
+        self.occs.append([kind, dev, len(data), which, num(data[0]), tk(time), 0])
+        if kind == 'sense':
+            self.nsense[(dev, which)] = self.nsense.get((dev, which), 0) + 1
+
     def occ_shutdown(self, dev, i, is_fail, part):
         self.sdlog.append(['down', dev, i, bool(is_fail), self.pid(part)])
         if i == 1 and part is not None:
@@ -173,6 +181,13 @@ class FloorTracer:
                        wres=bool(o._waiting_for_resources),
                        up=tk(o.uptime, 'uptime') if o.env is not None else 0,
                        ut=tk(o.utilization_time, 'util') if o.env is not None else 0)
+            out['damage'] = num(getattr(o, 'damage', 0))
+            so, sp = self.m.sensors.get((d['id'], 0)), self.m.sensors.get((d['id'], 1))
+            if so is not None:       # the public per-probe series
+                out.update(sdata=[num(x) for x in so.data[so.probes[0]]], sn=self.nsense.get((d['id'], 0), 0))
+            if sp is not None:
+                out.update(pdata=[num(x) for x in sp.data[sp.probes[0]]], ptime=[tk(x) for x in sp.data.get('time', [])],
+                           pn=self.nsense.get((d['id'], 1), 0))
         elif k == 'buffer':
             # content and order from the public stored_parts, arrival times as observed by the receive callback
             out.update(buf=[[self.arrival.get((d['id'], self.pid(p)), -1), self.pid(p)] for p in o.stored_parts],
@@ -228,6 +243,8 @@ class FloorTracer:
         arg = (a.idx + 1) if isinstance(a, ScriptAct) else 0
         if kind == 'sched':
             arg = -2000 - asset
+        if kind == 'psense':
+            arg = -4000 - asset
         if kind in ('mstart', 'mfinish'):
             req = getattr(a, 'keywords', {}).get('request')
             arg = getattr(getattr(req, 'target', None), '_vid', 0) * 10 + (1 if getattr(req, 'tag', '') == 'y' else 0)
